@@ -209,7 +209,7 @@ def main(prop, tier, seed, replay_path=None):
         for sig, what in x["viol"]:
             verdict.violation(sig, f"{what} [cell {todo[x['i']]}]", replay={"builder": "density_cell", "params": {"cell": todo[x["i"]]}})
     rc, n_unlisted, known = verdict.finish()
-    cov = {"states": 1, "transitions": 1, "traces_validated_against_impl": len(todo),
+    cov = {"states": int(max(1, r.distinct)), "transitions": int(max(1, r.generated)), "traces_validated_against_impl": len(todo),
            "samples": todo[:2], "evaluations": n_pts, "distinct_nontrivial": len({json.dumps(c, sort_keys=True) for c in todo}),
            "rule": "configuration cells (back-end x bounded transform x affine x dtype x untrained/trained/reloaded) enumerated by TLC from Density.tla; 256 draws per cell (points next to the clipping margin skipped) plus the fake-transform sign test; distinct = distinct cells",
            "exhaustive": tier != "quick", "tlc_cells": ncells,
